@@ -280,3 +280,19 @@ def abstract_ka(s):
             elif es[0] == "close": toks.append("x")
         toks.append("e")
     return toks, None
+
+
+def abstract_disct(s):
+    """timed projection for the limit of async_disconnect (lean/Mqtt5V/Model/TraceDiscT.lean): i async_disconnect initiated, t:<ms> the clock moves on,
+    x its completion handler ran"""
+    toks = []
+    discs = {o.name for o in s.ops.values() if o.kind == "disc"}
+    for line, evs, st, t in s.tr:
+        ws = line.split()
+        if not ws or evs == ["<crash>"] or evs == ["<bad-op>"]: break
+        if ws[0] == "disc": toks.append("i")
+        elif ws[0] == "advance": toks.append(f"t:{int(ws[1])}")
+        for e in evs:
+            es = e.split()
+            if es[0] == "done" and es[1] in discs: toks.append("x")
+    return toks, None
